@@ -1,6 +1,7 @@
 import VelaVerif.Lemmas.FpMath
 import VelaVerif.Lemmas.Lut
 import VelaVerif.Lemmas.FpMathExp
+import VelaVerif.Lemmas.LutHardswish
 import VelaVerif.Gen.FpMathTables
 /-!
 # C19 — lookup tables and compile-time fixed-point maths match their reference functions
@@ -171,6 +172,39 @@ theorem lrelu_fit_of_range (signed : Bool) (zpIn idShift aShift : Int)
   · cases signed <;> simp [qmin, qmax] at hc hz <;> omega
   · unfold leftOf; split <;> split <;> omega
 
+/-- `convert_hardswish_to_lut` (8-bit): for int32 `quantise_scale` multipliers, zero points of the tensor type,
+    output shift in `[31, 46]` (TFLite requires output exponent ≤ 0), relu shift in `[0, 46]`, and either an output
+    zero point ≤ 127 or an output shift ≥ 32, **each of the 256 entries equals the TFLite(-Micro) reference HardSwish
+    kernel** (with its int16 intermediates, C casts and all) and lies in `[qmin, qmax]`.  The excluded corner
+    (`uint8`, zero point > 127, output shift exactly 31) is where the *reference* wraps its int16 `output_value`,
+    see `hardswish_ref_wraps_witness`. -/
+theorem hardswish_lut_spec (signed : Bool) (zpIn zpOut outScale outShift reluScale reluShift : Int)
+    (hos : inI32 outScale = true) (hrs : inI32 reluScale = true)
+    (hzi : qmin signed ≤ zpIn ∧ zpIn ≤ qmax signed) (hzo : -128 ≤ zpOut ∧ zpOut ≤ 255)
+    (hosh : 31 ≤ outShift ∧ outShift ≤ 46) (hrsh : 0 ≤ reluShift ∧ reluShift ≤ 46)
+    (hw : zpOut ≤ 127 ∨ 32 ≤ outShift) :
+    ∃ os16 rs16, downscaleMultiplierInt32ToInt16 outScale = .ok os16 ∧
+      downscaleMultiplierInt32ToInt16 reluScale = .ok rs16 ∧
+      hardswishLut signed zpIn zpOut outScale outShift reluScale reluShift =
+        .ok ((codes signed).map (Gemmlowp.hardSwishRef (qmin signed) (qmax signed) zpIn zpOut
+              os16 (31 - outShift) rs16 (31 - reluShift))) ∧
+      ∀ v ∈ (codes signed).map (Gemmlowp.hardSwishRef (qmin signed) (qmax signed) zpIn zpOut
+              os16 (31 - outShift) rs16 (31 - reluShift)), qmin signed ≤ v ∧ v ≤ qmax signed := by
+  obtain ⟨os16, rs16, h1, h2, h3⟩ :=
+    hardswish_table_eq signed zpIn zpOut outScale outShift reluScale reluShift hos hrs hzi hzo hosh hrsh hw
+  refine ⟨os16, rs16, h1, h2, h3, ?_⟩
+  intro v hv
+  simp only [List.mem_map] at hv
+  obtain ⟨x, _, rfl⟩ := hv
+  exact hardSwishRef_range _ _ _ _ _ _ _ _ _ (qmin_le_qmax signed)
+
+/-- In the excluded corner the TFLite reference computes `int16 output_value += zero_point` past 32767 and wraps
+    (entry 0 after the clamp), while the Python — unbounded ints — saturates to 255: uint8, zero points 0 / 255,
+    both 16-bit multipliers 32767, output shift 31, relu shift 20, code 255. -/
+theorem hardswish_ref_wraps_witness :
+    hardswishEntry false 0 255 32767 31 32767 20 255 = .ok 255 ∧
+    Gemmlowp.hardSwishRef 0 255 0 255 32767 (31 - 31) 32767 (31 - 20) 255 = 0 := by decide
+
 /-- constant folding of Quantize (`optimise_quantize`, int8→int8 / int16→int16): every folded constant equals the
     TFLite reference `Requantize` value and lies in `[quant_min, quant_max]` -/
 theorem quantize_fold_eq (quantMin quantMax zpIn zpOut mult shift : Int) (vals : List Int)
@@ -234,5 +268,7 @@ example : (qmin true ≤ (3:Int) ∧ (3:Int) ≤ qmax true) ∧ inI32 1717986854
 example : lreluEntry true 3 (-8) 1717986854 32 1 1374389504 35 (-128) = .ok (-13) ∧
     lreluEntry true 3 (-8) 1717986854 32 1 1374389504 35 127 = .ok 42 := by decide
 example : quantizeFold (-128) 127 3 (-5) 1073741824 29 [-128, 0, 127] = .ok [-128, -11, 127] := by decide
+-- hardswish: int8, ifm scale 0.05 (relu shift 29 < 31: the branch that crashes in the unpatched code), ofm scale 0.04
+example : hardswishEntry true (-3) 5 25600 38 18204 29 127 = .ok 107 ∧ hardswishEntry true (-3) 5 25600 38 18204 29 (-30) = .ok (-3) := by decide
 
 end VelaVerif.Props.C19
